@@ -108,3 +108,92 @@ func VerifC13Snapshot() {
 }
 
 var _ = operation.NewOperation
+
+// VerifC13Concurrent: the log GROWS while a snapshot is being saved - a local
+// write, or the join that ends a replication, starts at ANY visible operation
+// of SaveSnapshot (it takes no store lock).  Saving either reports an error or
+// writes a snapshot that loads, and the reloaded database is the one that
+// existed before or after the growth (never something that cannot be read).
+func VerifC13Concurrent() {
+	t := vstub.Param("T", 2)
+	blocks := vstub.NewBlocks(nil)
+	a, envA := c13Open("a", blocks, nil, nil)
+	if a == nil {
+		return
+	}
+	ctx := context.Background()
+	addN(&a.BaseStore, t, 'a')
+	before := hashesOf(&a.BaseStore)
+	growth := vstub.NdChoice("growth", 2)
+	var bw *BaseStore
+	if growth == 1 {
+		bw, _ = openWith("b", blocks, nil, nil)
+		if bw == nil {
+			return
+		}
+		addN(bw, 1, 'b')
+	}
+	done := make(chan struct{})
+	fired := false
+	grow := func() {
+		defer close(done)
+		if growth == 0 {
+			if _, err := a.AddOperation(ctx, operation.NewOperation(nil, "ADD", []byte("late")), nil); err != nil {
+				vstub.Fail("C13 concurrent AddOperation failed")
+			}
+		} else {
+			if err := a.Sync(ctx, bw.OpLog().Heads().Slice()); err != nil {
+				vstub.Fail("C13 concurrent Sync failed")
+			}
+		}
+	}
+	vstub.FaultAtAnyStep(func() { fired = true; go grow() })
+	_, err := SaveSnapshot(ctx, a)
+	vstub.FaultDisarm()
+	if fired {
+		<-done
+		vstub.Cover("grew-during-save")
+	}
+	vstub.WaitIdle()
+	after := hashesOf(&a.BaseStore)
+	if err != nil {
+		vstub.Cover("save-refused")
+		return
+	}
+	vstub.Cover("saved")
+	r, _ := c13Open("a", blocks, envA.Cache, envA.IPFS.Files)
+	if r == nil {
+		return
+	}
+	lerr := r.LoadFromSnapshot(ctx)
+	vstub.WaitIdle()
+	if lerr != nil {
+		vstub.Observe("load error: " + lerr.Error())
+	}
+	vstub.Assert(lerr == nil, "C13 a snapshot saved while the log grows still loads (or saving fails)")
+	if lerr != nil {
+		return
+	}
+	vstub.Cover("loaded")
+	got := hashesOf(&r.BaseStore)
+	// the reloaded log is closed under the saved state: at least everything held
+	// before the save started, at most everything held after it ended, in log order
+	vstub.Assert(len(got) >= len(before) && len(got) <= len(after), "C13 the reloaded log is the database before or after the concurrent growth")
+	pos := 0
+	for _, h := range got {
+		for pos < len(after) && after[pos] != h {
+			pos++
+		}
+		vstub.Assert(pos < len(after), "C13 the reloaded log lists only saved entries, in log order")
+		pos++
+	}
+	for _, h := range before {
+		found := false
+		for _, g := range got {
+			if g == h {
+				found = true
+			}
+		}
+		vstub.Assert(found, "C13 the reloaded log holds everything the database held when the save started")
+	}
+}
